@@ -110,6 +110,14 @@ def _close(a, b, tol=MODEL_TOL):
 
 def _exact(a, b):
     """same number, bit for bit in every real part (1 == 1.0 is accepted, 0.0 vs -0.0 is not)"""
+    if isinstance(a, int) and isinstance(b, int):
+        return a == b               # integers beyond 2**53 must not be compared through floats
+    if isinstance(a, int) != isinstance(b, int) and not isinstance(a, complex) and not isinstance(b, complex):
+        try:
+            if int(a) != int(b) or float(a) != float(b):
+                return False
+        except (OverflowError, ValueError):
+            return False
     ca, cb = complex(a), complex(b)
     for p, q in ((ca.real, cb.real), (ca.imag, cb.imag)):
         if math.isnan(p) and math.isnan(q):
@@ -187,15 +195,19 @@ def model_load_network(ctx, a, res, rec):
         return _unjudged(rec, res)
     if isinstance(res, BaseException):
         return _viol("load-failed", f"well-formed description raised {type(res).__name__}")
-    if len(res.branches) != len(exp):
-        return _viol("wrong-branch-count", f"{len(res.branches)} != {len(exp)}")
-    for b, (n1, n2, i, q) in zip(res.branches, exp):
-        if (b.node1, b.node2, b.id) != (n1, n2, i):
-            return _viol("wrong-identity", f"{(b.node1, b.node2, b.id)} != {(n1, n2, i)}")
-        for attr, v in q.items():
-            got = getattr(b.element, attr)
-            if not _close(got, v):
-                return _viol("wrong-value", f"{i}.{attr}: {got!r} != {v!r}")
+    try:
+        if len(res.branches) != len(exp):
+            return _viol("wrong-branch-count", f"{len(res.branches)} != {len(exp)}")
+        for b, (n1, n2, i, q) in zip(res.branches, exp):
+            if (b.node1, b.node2, b.id) != (n1, n2, i):
+                return _viol("wrong-identity", f"{(b.node1, b.node2, b.id)} != {(n1, n2, i)}")
+            for attr, v in q.items():
+                got = getattr(b.element, attr)
+                if not _close(got, v):
+                    return _viol("wrong-value", f"{i}.{attr}: {got!r} != {v!r}")
+    except (AttributeError, TypeError) as e:
+        # the loader returned something that is not a network of branches with elements
+        return _viol("wrong-type", f"{type(res).__name__}: {type(e).__name__}: {e}")
     return None
 
 
@@ -242,9 +254,14 @@ def _model_component(e):
 
 def _check_component(c, exp):
     t, i, nodes, val = exp
-    if (c.type, c.id, list(c.nodes)) != (t, i, nodes):
-        return _viol("wrong-identity", f"{(c.type, c.id, list(c.nodes))} != {(t, i, nodes)}")
-    d = _same_doc(dict(c.value), val, f"{i}.value")
+    try:
+        ident = (c.type, c.id, list(c.nodes))
+        value = dict(c.value)
+    except (AttributeError, TypeError) as e:
+        return _viol("wrong-type", f"{type(c).__name__}: {type(e).__name__}: {e}")
+    if ident != (t, i, nodes):
+        return _viol("wrong-identity", f"{ident} != {(t, i, nodes)}")
+    d = _same_doc(value, val, f"{i}.value")
     if d:
         return _viol("wrong-value", d)
     return None
@@ -282,6 +299,8 @@ def model_undictify_circuit(ctx, a, res, rec):
         if type(res).__name__ in ("ValueError", "MultipleGroundNodes"):
             return None
         return _viol("load-failed", f"well-formed circuit description raised {type(res).__name__}")
+    if not hasattr(res, "components"):
+        return _viol("wrong-type", f"{type(res).__name__} is not a circuit")
     if len(res.components) != len(exps):
         return _viol("wrong-component-count", f"{len(res.components)} != {len(exps)}")
     for c, e in zip(res.components, exps):
@@ -344,6 +363,16 @@ def ld_dictify_all(ctx, a, seam):
     return dl.dictify_all_complex_values(ctx.arg(a["doc"]))
 
 
+def _m_dictify(v):
+    if isinstance(v, complex):
+        return {"real": v.real, "imag": v.imag}
+    if isinstance(v, dict):
+        return {k: _m_dictify(x) for k, x in v.items()}
+    if isinstance(v, list):
+        return [_m_dictify(x) for x in v]
+    return v
+
+
 def _is_note(v):
     return isinstance(v, dict) and sorted(v.keys()) in (["imag", "real"], ["abs", "phase"], ["abs", "phase_deg"])
 
@@ -357,6 +386,13 @@ def model_undictify_flat(ctx, a, res, rec):
     if isinstance(res, BaseException):
         return _viol("load-failed", f"undictify_complex_values of a well-formed dictionary raised {type(res).__name__}")
     d = _same_doc(res, exp)
+    if d:
+        # C17 does not say that the one-level helper must NOT look deeper: the recursive answer is as good
+        try:
+            if _same_doc(res, m_undictify(doc)) is None:
+                return None
+        except ModelRaises:
+            pass
     return _viol("wrong-value", d) if d else None
 
 
@@ -372,6 +408,8 @@ def model_dictify_flat(ctx, a, res, rec):
     if isinstance(res, BaseException):
         return _viol("serialize-failed", f"dictify_complex_values raised {type(res).__name__}")
     d = _same_doc(res, exp)
+    if d and _same_doc(res, _m_dictify(doc)) is None:
+        return None                 # the recursive conversion is as good as the one-level one
     return _viol("wrong-value", d) if d else None
 
 
